@@ -2,7 +2,9 @@
 // Monitor: parse< seq< json::text, eof > > runs on exact-size guarded buffers beside the independent
 // recogniser cpp/oracles/json_rfc8259.hpp; every disagreement in acceptance and every exception
 // (the grammar contains no must<>, so parse_error is not a way of rejecting) is reported.
+#include <cstring>
 #include <tao/pegtl.hpp>
+#include <tao/pegtl/buffer_input.hpp>
 #include <tao/pegtl/contrib/json.hpp>
 
 #include <pthread.h>
@@ -48,6 +50,44 @@ namespace
       }
    }
 
+   // the same bytes through an incremental input: a reader that hands out `step` bytes per call (multi-byte characters,
+   // escapes and literals then straddle the end of the buffered data)
+   struct step_reader
+   {
+      const char* p;
+      const char* e;
+      std::size_t step;
+      std::size_t operator()( char* buf, const std::size_t len )
+      {
+         const std::size_t n = std::min( { len, step, std::size_t( e - p ) } );
+         std::memcpy( buf, p, n );
+         p += n;
+         return n;
+      }
+   };
+
+   real_result run_incremental( std::string_view s, const std::size_t step )
+   {
+      verif::guarded_buffer gb( s, 0 );
+      try {
+         pegtl::buffer_input< step_reader, pegtl::eol::lf_crlf, std::string, 4 > in( "c14", s.size() + 16, step_reader{ gb.begin(), gb.end(), step } );
+         const bool r = pegtl::parse< grammar >( in );
+         return { r ? 1 : 0, "" };
+      }
+      catch( const pegtl::parse_error& ) {
+         return { 2, "parse_error" };
+      }
+      catch( const std::bad_alloc& ) {
+         return { 2, "bad_alloc" };
+      }
+      catch( const std::exception& ) {
+         return { 2, "std::exception" };
+      }
+      catch( ... ) {
+         return { 2, "unknown" };
+      }
+   }
+
    // ------------------------------------------------------------------ bookkeeping
    enum gen_id { G_SMALL, G_WIDE, G_DOC, G_MUT1, G_MUT2, G_UTF8, G_ESC, G_LIT, G_NUM, G_WS, G_DEEP, G_COUNT };
    const char* const gen_name[ G_COUNT ] = { "sweep-small", "sweep-wide", "doc", "mut1", "mut2", "utf8", "escape", "literal", "number", "ws", "deep" };
@@ -56,7 +96,7 @@ namespace
    long g_len[ 2 ][ 9 ][ 2 ];               // sweeps: [sweep][length][accepted]
    long g_why[ oracle::json_why_count ];    // reject reasons given by the oracle
    long g_top[ 5 ];                         // accepted texts by kind of the top-level value
-   long g_mode1 = 0, g_trivial = 0, g_dup = 0, g_dup_swept = 0;
+   long g_mode1 = 0, g_trivial = 0, g_dup = 0, g_dup_swept = 0, g_incremental = 0;
    std::string g_sample[ G_COUNT ];
 
    int top_index( char k ) { return k == 'n' ? 0 : k == 's' ? 1 : k == 'l' ? 2 : k == 'a' ? 3 : 4; }
@@ -166,7 +206,7 @@ namespace
    void compare( const oracle::json_verdict& v, const real_result& r, const unsigned char* d, std::size_t n, int mode, std::string_view filler, const std::string& replay_extra )
    {
       std::string replay = "{\"hex\":\"" + ( n <= 4096 ? verif::hex( d, n ) : std::string( "(long)" ) ) + "\",\"mode\":" + std::to_string( mode ) + ",\"filler\":\"" + verif::hex( filler ) + "\"" + replay_extra + "}";
-      const std::string where = " [buffer mode " + std::to_string( mode ) + ( mode ? ", poisoned tail filled with '" + verif::show( filler ) + "'" : "" ) + "]";
+      const std::string where = mode == 2 ? std::string( " [buffer_input with a reader handing out 1-3 bytes per call, Chunk 4]" ) : " [buffer mode " + std::to_string( mode ) + ( mode ? ", poisoned tail filled with '" + verif::show( filler ) + "'" : "" ) + "]";
       if( g_window_op >= 0 ) {
          V.violation( "C14", "C14|text|window-violation|op" + std::to_string( g_window_op ), "peek/bump outside [current,end) while parsing " + describe( d, n ) + where, replay );
          g_window_op = -1;
@@ -220,6 +260,15 @@ namespace
          ++V.evaluations;
          ++g_mode1;
          compare( v, r1, d, n, 1, f, replay_extra );
+      }
+      // incremental input: every generated / mutated document, and the swept strings that contain a non-ASCII byte
+      bool high = false;
+      for( std::size_t i = 0; i < n && !high; ++i ) high = d[ i ] >= 0x80;
+      if( ( gen != G_SMALL && gen != G_WIDE && gen != G_DEEP ) || high ) {
+         const real_result r2 = run_incremental( sv, 1 + ( salt + n ) % 3 );
+         ++V.evaluations;
+         ++g_incremental;
+         compare( v, r2, d, n, 2, {}, replay_extra );
       }
       ++g_out[ gen ][ v.ok ];
       if( v.ok ) ++g_top[ top_index( v.top_kind ) ];
@@ -894,6 +943,7 @@ namespace
       for( int k = 0; k < 5; ++k )
          if( g_top[ k ] ) V.count( std::string( "oracle-accept:top-level-" ) + top_name[ k ], g_top[ k ] );
       if( g_mode1 ) V.count( "runs:mode1-poisoned-tail", g_mode1 );
+      if( g_incremental ) V.count( "runs:incremental-input", g_incremental );
       if( g_trivial ) V.count( "trivial:rejected-at-first-byte-or-empty", g_trivial );
       for( const auto* m : { &g_feat, &g_mutcat, &g_depth, &g_utf8, &g_misc, &g_deepcells } )
          for( const auto& [ k, n ] : *m ) V.count( ( m == &g_feat ? "doc-feature:" : "" ) + k, n );
